@@ -332,7 +332,9 @@ impl<'a, R: 'a + InnerReaderTrait> LayerReader<'a, R> for CompressionLayerReader
                 let len = u64::from(inner.read_u32::<LittleEndian>()?);
 
                 // Read SizesInfo
-                inner.seek(SeekFrom::Start(pos - len))?;
+                // `len` is untrusted: it cannot exceed the bytes before it
+                let sizes_info_pos = pos.checked_sub(len).ok_or(Error::DeserializationError)?;
+                inner.seek(SeekFrom::Start(sizes_info_pos))?;
                 self.sizes_info = match bincode::options()
                     .with_limit(BINCODE_MAX_DESERIALIZE)
                     .with_fixint_encoding()
